@@ -68,12 +68,15 @@ class Walker:
             rng.shuffle(kw)
         return kw
 
-    def circ_action(self, cid=None):
+    def circ_action(self, cid=None, end=False):
         rng = self.rng
         if cid is None:
             cid = rng.choice(self.cids)
         cur = self.circs.get(cid)
-        if cur is None:
+        if end and cur is not None:
+            st = rng.choice([C_CLOSED, C_CLOSED, C_FAILED])
+            path = cur['path']
+        elif cur is None:
             st = self.pick([(55, C_LAUNCHED), (15, C_EXTENDED), (20, C_BUILT), (3, C_GUARD_WAIT), (3, C_CLOSED), (4, C_FAILED)])
             if cid in self.closed_c:
                 self.tags.add('circ-id-reused')
@@ -129,13 +132,17 @@ class Walker:
             return 0
         return self.rng.choice(alive)
 
-    def stream_action(self, sid=None):
+    def stream_action(self, sid=None, end=False):
         rng = self.rng
         if sid is None:
             sid = rng.choice(self.sids)
         cur = self.streams.get(sid)
         first = cur is None
-        if first:
+        if end and not first:
+            host, port, att = cur['cur'], cur['port'], cur['att']
+            st = rng.choice([S_CLOSED, S_CLOSED, S_FAILED])
+            cid = att if isinstance(att, int) else 0
+        elif first:
             st = self.pick([(78, S_NEW), (5, S_SENTCONNECT), (4, S_SUCCEEDED), (3, S_REMAP), (2, S_DETACHED), (2, S_CLOSED), (2, S_FAILED)])
             if sid in self.closed_s:
                 self.tags.add('stream-id-reused')
@@ -161,8 +168,8 @@ class Walker:
                 cid = att
             if st in (S_DETACHED, S_CLOSED, S_FAILED) and att is None:
                 cid = rng.choice([0, 0, rng.choice(self.cids)])
-            if st in (S_CLOSED, S_FAILED) and att not in (None, 'dangling'):
-                cid = rng.choice([att, att, 0])
+            if st in (S_CLOSED, S_FAILED, S_DETACHED) and att not in (None, 'dangling'):
+                cid = rng.choice([att, att, att, 0])
             if st == S_REMAP:
                 host = rng.randrange(len(L.HOSTS))
             if st in (S_CLOSED, S_FAILED) and rng.random() < 0.1:
